@@ -1,2 +1,49 @@
 """Classifiers for known findings: pure predicates over a failure case dict and the
 finding's params.  Each is as narrow as the defect it describes."""
+from fractions import Fraction as Fr
+
+
+def _obj(case):
+    return case.get('obj') or (case.get('case') or {}).get('obj')
+
+
+def _nfun(b):
+    return len(b['knots']) - b['order'] - (b['periodic'] + 1)
+
+
+def _touched_dirs(case):
+    o = _obj(case)
+    if o is None:
+        return []
+    op = case.get('op', '')
+    if op in ('refine', 'all_directions') or case.get('direction') is None:
+        return list(range(len(o['bases'])))
+    return [case['direction']]
+
+
+def periodic_small(case, params):
+    """the operation touches a periodic direction with fewer than order+continuity basis functions:
+    the head and tail ghost-knot ranges overlap and the library's periodic algorithms (insertion,
+    ghost-knot repair, roll, split) are not defined for it"""
+    o = _obj(case)
+    if o is None:
+        return False
+    for d in _touched_dirs(case):
+        b = o['bases'][d]
+        if b['periodic'] >= 0 and _nfun(b) < b['order'] + b['periodic']:
+            return True
+    return False
+
+
+def nonperiodic_end_insert(case, params):
+    """insert_knot(x) with x equal to the end of the domain of a non-periodic, non-open knot vector
+    raises IndexError"""
+    o = _obj(case)
+    if o is None or not str(case.get('op', '')).startswith('insert') or 'IndexError' not in case.get('what', ''):
+        return False
+    b = o['bases'][case['direction']]
+    if b['periodic'] >= 0:
+        return False
+    k = [Fr(x) for x in b['knots']]
+    end = k[len(k) - b['order']]
+    return any(Fr(x) == end for x in case.get('knots', []))
